@@ -27,7 +27,7 @@ from .tlc import run_tlc as _run_tlc, require_ok, TlcFailure
 
 PREC = {"Unplug": 0, "Plugin": 10, "Recompute": 20}
 BATCH_FILE = "EventQueue_batch.ndjson"
-MC_ACTIONS = ["Add", "AddMany", "DoGetEvent", "GetCurrentAt", "QLen", "QEmpty", "QLastTs", "RoundTrip"]
+MC_ACTIONS = ["Add", "AddMany", "AddManyKept", "DoGetEvent", "GetCurrentAt", "QLen", "QEmpty", "QLastTs", "RoundTrip"]
 
 
 def run_tlc(module, cfg, heap="2g", **kw):
@@ -141,6 +141,10 @@ def saturate(ops):
     return out
 
 
+class SourceFailed(Exception):
+    """Raised by the event source of an add_many_fail call (never by the library)."""
+
+
 def execute(ops, queue_cls=None):
     """Run the calls of a plan on a real EventQueue.  Returns (log lines, notes).
 
@@ -151,6 +155,7 @@ def execute(ops, queue_cls=None):
     ids = _Ids()
     lines = []
     next_id = 1
+    partial_add = False
     with warnings.catch_warnings():
         warnings.simplefilter("ignore")
         q = queue_cls()
@@ -183,7 +188,32 @@ def execute(ops, queue_cls=None):
                         line["evs"].append({"id": next_id, "ts": a["ts"], "kind": a["kind"]})
                         next_id += 1
                     q.add_events(es)
+                elif op == "add_many_fail":
+                    # the source of the batch fails after producing k events; the caller catches that and goes on
+                    k, made = o["k"], []
+                    line["k"], line["evs"] = k, [{"id": next_id + i, "ts": a["ts"], "kind": a["kind"]}
+                                                   for i, a in enumerate(o["evs"])]
+
+                    def source():
+                        for i in range(k):
+                            e = ids.make(next_id + i, o["evs"][i]["ts"], o["evs"][i]["kind"])
+                            made.append(e)
+                            yield e
+                        raise SourceFailed("the event source failed after %d events" % k)
+                    try:
+                        q.add_events(source())
+                        ids.notes.append("add_events swallowed the failure of its source")
+                    except SourceFailed:
+                        pass
+                    next_id += k
+                    held = {id(item[1]) for item in list(q.queue)}
+                    line["kept"] = [line["evs"][i] for i, e in enumerate(made) if id(e) in held]
+                    partial_add = partial_add or len(line["kept"]) != k
                 elif op == "get_event":
+                    if partial_add and len(q) == 0:
+                        # the plan was made for a queue that keeps what a failing source had produced; this one kept
+                        # less (also a valid reading), so a retrieval planned for a non-empty queue is not applicable
+                        continue
                     line["ev"] = ids.describe(q.get_event())
                 elif op == "get_current":
                     line["t"] = o["t"]
@@ -256,6 +286,15 @@ class RefQueue:
                 assert e["id"] == self.next_id
                 P[e["id"]] = dict(e)
                 self.next_id += 1
+        elif op == "add_many_fail":
+            k = ln["k"]
+            assert [e["id"] for e in ln["evs"]] == list(range(self.next_id, self.next_id + len(ln["evs"])))
+            offered = {e["id"]: e for e in ln["evs"][:k]}
+            for e in ln["kept"]:
+                if offered.get(e["id"]) != e:
+                    return "kept-foreign", "after a failed add_events the queue holds %s, which its source never produced" % (e,)
+                P[e["id"]] = dict(e)
+            self.next_id += k
         elif op == "get_event":
             e = ln["ev"]
             if P.get(e["id"]) != e:
